@@ -902,6 +902,8 @@ class TT():
             torch.tensor: the values of the tensor
 
         """
+        if isinstance(indices, (list, tuple)):
+            indices = tn.tensor(indices, dtype=tn.int64, device=self.cores[0].device).reshape(len(indices), len(self.__N))
         if tn.is_tensor(indices) and (len(indices.shape) != 2 or indices.shape[1] != len(self.__N)):
             raise InvalidArguments(
                 'The index list must have one column per mode.')
